@@ -103,7 +103,7 @@ def main(tier, seed, args):
     rep.assumptions = ['the set never reaches the required total and no HTLC is rejecting (assumed on the symbolic inputs)',
                        'wall clock: arbitrary non-decreasing', 'tokio sleep completes only after the environment fires it']
     rep.trusted = ['mirsym', 'z3', 'tokio time/select contracts', 'node model']
-    budget = 110 if tier == 'quick' else 1500
+    budget = 440 if tier == 'quick' else 3000
     configs = []
     cfg, pc = cfg_partial(n, False)
     configs.append(('incomplete[%d htlcs, free]' % n, cfg, pc, [TimeoutMonitor(False), Coverage(['timer', 'response:Fail(2019)'])], {}))
